@@ -397,6 +397,70 @@ func init() {
 				}
 			}
 			fmt.Fprintf(&sb, "/-- where the commands create their sorters: (file, closure depth, statement) -/\ndef sorterSites : List (String × Nat × String) := [\n  %s]\n\n", strings.Join(sites, ",\n  "))
+
+			// default sort modes: what the user gets without --sort / --sort-rows / --sort-cols
+			{
+				fieldOf := func(cl *ast.CompositeLit, name string) ast.Expr {
+					for _, el := range cl.Elts {
+						if kv, ok := el.(*ast.KeyValueExpr); ok {
+							if id, ok := kv.Key.(*ast.Ident); ok && id.Name == name {
+								return kv.Value
+							}
+						}
+					}
+					return nil
+				}
+				dflt := "?"
+				if e := c.Var(helpFile, "DefaultSortFlag"); e != nil {
+					if u, ok := e.(*ast.UnaryExpr); ok {
+						e = u.X
+					}
+					if cl, ok := e.(*ast.CompositeLit); ok {
+						if v := fieldOf(cl, "Value"); v != nil {
+							if sv, ok := StringLit(v); ok {
+								dflt = sv
+							}
+						}
+					}
+				}
+				fmt.Fprintf(&sb, "/-- `Value` of `helpers.DefaultSortFlag` -/\ndef defaultSortValue : String := %s\n\n", leanStr(dflt))
+				var rows []string
+				for _, rel := range cmdFiles {
+					f := c.File(rel)
+					if f == nil {
+						continue
+					}
+					ast.Inspect(f, func(x ast.Node) bool {
+						switch y := x.(type) {
+						case *ast.CompositeLit:
+							if flat(y.Type) == "cli.StringFlag" {
+								nm, _ := StringLit(fieldOf(y, "Name"))
+								if nm == "sort" || nm == "sort-rows" || nm == "sort-cols" {
+									val := "<none>"
+									if v := fieldOf(y, "Value"); v != nil {
+										val = flat(v)
+									}
+									rows = append(rows, fmt.Sprintf("(%s, %s, %s)", leanStr(rel), leanStr(nm), leanStr(val)))
+								}
+								return true
+							}
+							for _, el := range y.Elts { // a flag list naming the shared flag itself
+								if flat(el) == "helpers.DefaultSortFlag" {
+									rows = append(rows, fmt.Sprintf("(%s, \"sort\", \"helpers.DefaultSortFlag.Value\")", leanStr(rel)))
+								}
+							}
+						case *ast.CallExpr:
+							if flat(y.Fun) == "helpers.DefaultSortFlagWithDefault" && len(y.Args) == 1 {
+								rows = append(rows, fmt.Sprintf("(%s, \"sort\", %s)", leanStr(rel), leanStr(flat(y.Args[0]))))
+							}
+						}
+						return true
+					})
+				}
+				fmt.Fprintf(&sb, "/-- default of every sort flag of the commands: (file, flag, Go expression of the default) -/\ndef sortDefaults : List (String × String × String) := [\n  %s]\n\n", strings.Join(rows, ",\n  "))
+			}
+			skeleton(helpFile, "SortsByValue", "sortsByValueSkel")
+			skeleton(helpFile, "DefaultSortFlagWithDefault", "defaultSortFlagWithDefaultSkel")
 		}
 
 		for _, fn := range [][2]string{
